@@ -102,11 +102,15 @@ def check(repo, run, tier):
     g(unitrules.clear_premerge, repo, run, 'C04.R8')
     g(unitrules.promotion_guard, repo, run, 'C04.R7')
     g(unitrules.list_child_store, repo, run, 'C04.R10')
+    g(unitrules.child_kwargs_table, repo, run, 'C04.R2')
+    g(unitrules.getter_table, repo, run, 'C04.R2')
     g.done()
 
 
 def mutants(repo):
     return [
+        Mutant('explicit-delete-getter', lambda r: in_func(r, 'ConfigNode.ayns.explicit_delete', "return self._delete", "return None"), ['C04.R2']),
+        Mutant('list-children-lose-default-delete', lambda r: in_func(r, 'ComposedNode._get_child_kwargs', "self._default_delete or self._implicit_delete", "self._implicit_delete"), ['C04.R2']),
         Mutant('merge-cannot-grow-lists', lambda r: in_func(r, 'ConfigList.ayns.set_child', "return self._set(index, value, strict=False)", "return self._set(index, value)"), ['C04.R10']),
         Mutant('promotion-when-not-allowed', lambda r: in_func(r, 'ConfigNode._replace_self', "        if allow_promotions:\n            ret = self._maybe_promote(other)", "        if not allow_promotions:\n            ret = self._maybe_promote(other)"), ['C04.R7']),
         Mutant('filter-drops-kept-containers', lambda r: in_func(r, 'ComposedNode.ayns.filter_nodes', "keep = keep or bool(possibly_new_child)", "keep = keep and bool(possibly_new_child)"), ['C04.R9']),
